@@ -10,6 +10,7 @@ import (
 	"os"
 	"os/exec"
 	"path/filepath"
+	"regexp"
 	"sort"
 	"strconv"
 	"strings"
@@ -45,7 +46,8 @@ type KnownFinding struct {
 	Property  string `json:"property"`
 	Status    string `json:"status"` // known | fixed
 	Harness   string `json:"harness"`
-	Signature string `json:"signature"`
+	Signature string `json:"signature,omitempty"`
+	SigRe     string `json:"signature_re,omitempty"`
 	What      string `json:"what"`
 	Commit    string `json:"commit,omitempty"`
 }
@@ -240,6 +242,31 @@ func cmdCheck(args []string) int {
 			vcases = append(vcases, v)
 			cases = append(cases, nativeCase{Harness: v.Harness, Shape: v.Shape, Assign: v.Assign})
 		}
+		// stack-overflow candidates crash the native process: run each alone
+		var ovf []*Violation
+		{
+			keepV := vcases[:0]
+			keepC := cases[:len(pick)]
+			for i, v := range vcases {
+				if v.Label == "stack-overflow" {
+					ovf = append(ovf, v)
+				} else {
+					keepV = append(keepV, v)
+					keepC = append(keepC, cases[len(pick)+i])
+				}
+			}
+			vcases, cases = keepV, keepC
+		}
+		for _, v := range ovf {
+			_, cerr := runNative(env, []nativeCase{{Harness: v.Harness, Shape: v.Shape, Assign: v.Assign}}, hs)
+			if cerr != nil && strings.Contains(cerr.Error(), "stack overflow") {
+				v.Confirmed = "native"
+				ev.validated++
+			} else {
+				v.Confirmed = "no"
+				inconclusive = append(inconclusive, fmt.Sprintf("recursion bound exceeded but no native stack overflow: %s shape %d %s assign %v", v.Harness, v.Shape, v.Detail, v.Assign))
+			}
+		}
 		results, nerr := runNative(env, cases, hs)
 		if nerr != nil {
 			fmt.Fprintln(os.Stderr, "INCONCLUSIVE: native run failed:", nerr)
@@ -270,7 +297,7 @@ func cmdCheck(args []string) int {
 			}
 		}
 		// report
-		for _, v := range vcases {
+		for _, v := range append(vcases, ovf...) {
 			if v.Confirmed != "native" {
 				continue
 			}
@@ -368,8 +395,16 @@ func subsample(s []PathSample, n int, seed int) []PathSample {
 func matchKnown(known []KnownFinding, prop string, v *Violation) *KnownFinding {
 	for i := range known {
 		k := &known[i]
-		if k.Property == prop && k.Status == "known" && k.Harness == v.Harness && k.Signature == v.Signature {
+		if k.Property != prop || k.Status != "known" || k.Harness != v.Harness {
+			continue
+		}
+		if k.Signature != "" && k.Signature == v.Signature {
 			return k
+		}
+		if k.SigRe != "" {
+			if ok, _ := regexp.MatchString("^(?:"+k.SigRe+")$", v.Signature); ok {
+				return k
+			}
 		}
 	}
 	return nil
